@@ -54,11 +54,21 @@ fn vname(v: &Value<'_>) -> &'static str {
     }
 }
 
+// domain values borrow leaked statics so that cloning a row in the harness never copies a payload
+fn leak<T: ?Sized>(b: std::boxed::Box<T>) -> &'static T {
+    std::boxed::Box::leak(b)
+}
 fn text(s: String) -> V {
-    Value::Text(Cow::Owned(s))
+    Value::Text(Cow::Borrowed(leak(s.into_boxed_str())))
+}
+fn bytes(b: Vec<u8>) -> Cow<'static, [u8]> {
+    Cow::Borrowed(leak(b.into_boxed_slice()))
 }
 fn blob(b: Vec<u8>) -> V {
-    Value::Blob(Cow::Owned(b))
+    Value::Blob(bytes(b))
+}
+fn vector(v: Vec<f32>) -> V {
+    Value::Vector(Cow::Borrowed(leak(v.into_boxed_slice())))
 }
 
 /// D: (label, value); labels are "<Variant>:<what>"
@@ -96,10 +106,10 @@ fn domain() -> &'static Vec<(&'static str, V)> {
             ("Blob:00", blob(vec![0])),
             ("Blob:ff0001", blob(vec![0xFF, 0x00, 0x01])),
             ("Blob:70KB", blob(big_blob.clone())),
-            ("Vector:empty", Value::Vector(Cow::Owned(vec![]))),
-            ("Vector:1", Value::Vector(Cow::Owned(vec![1.0]))),
-            ("Vector:special", Value::Vector(Cow::Owned(vec![f32::NAN, -0.0, f32::INFINITY, f32::NEG_INFINITY, f32::MIN, f32::MAX, f32::from_bits(1), f32::from_bits(0xFFC0_0001)]))),
-            ("Vector:1536", Value::Vector(Cow::Owned((0..1536).map(|i| i as f32 * 0.5 - 100.0).collect()))),
+            ("Vector:empty", vector(vec![])),
+            ("Vector:1", vector(vec![1.0])),
+            ("Vector:special", vector(vec![f32::NAN, -0.0, f32::INFINITY, f32::NEG_INFINITY, f32::MIN, f32::MAX, f32::from_bits(1), f32::from_bits(0xFFC0_0001)])),
+            ("Vector:1536", vector((0..1536).map(|i| i as f32 * 0.5 - 100.0).collect())),
             ("Uuid:00", Value::Uuid([0; 16])),
             ("Uuid:ff", Value::Uuid([0xFF; 16])),
             ("Uuid:typical", Value::Uuid([0x00, 0x11, 0x22, 0x33, 0x44, 0x55, 0x66, 0x77, 0x88, 0x99, 0xAA, 0xBB, 0xCC, 0xDD, 0xEE, 0x01])),
@@ -112,9 +122,9 @@ fn domain() -> &'static Vec<(&'static str, V)> {
             ("Inet6:00", Value::Inet6([0; 16])),
             ("Inet6:ff", Value::Inet6([0xFF; 16])),
             ("Inet6:loopback", Value::Inet6([0, 0, 0, 0, 0, 0, 0, 0, 0, 0, 0, 0, 0, 0, 0, 1])),
-            ("Jsonb:empty", Value::Jsonb(Cow::Owned(vec![]))),
-            ("Jsonb:typical", Value::Jsonb(Cow::Owned(vec![0x02, 0x00, 0x00, 0x20, 0x61, 0x00, 0x01, 0x02, 0xFE]))),
-            ("Jsonb:70KB", Value::Jsonb(Cow::Owned(big_blob))),
+            ("Jsonb:empty", Value::Jsonb(bytes(vec![]))),
+            ("Jsonb:typical", Value::Jsonb(bytes(vec![0x02, 0x00, 0x00, 0x20, 0x61, 0x00, 0x01, 0x02, 0xFE]))),
+            ("Jsonb:70KB", Value::Jsonb(bytes(big_blob))),
             ("TimestampTz:zero", Value::TimestampTz { micros: 0, offset_secs: 0 }),
             ("TimestampTz:MIN", Value::TimestampTz { micros: i64::MIN, offset_secs: i32::MIN }),
             ("TimestampTz:MAX", Value::TimestampTz { micros: i64::MAX, offset_secs: i32::MAX }),
@@ -139,8 +149,8 @@ fn domain() -> &'static Vec<(&'static str, V)> {
             ("Decimal:MAX", Value::Decimal { digits: i128::MAX, scale: i16::MAX }),
             ("Decimal:typical", Value::Decimal { digits: 1_234_567, scale: 2 }),
             ("Decimal:negative", Value::Decimal { digits: -1_234_567, scale: 2 }),
-            ("ToastPointer:empty", Value::ToastPointer(Cow::Owned(vec![]))),
-            ("ToastPointer:17", Value::ToastPointer(Cow::Owned({
+            ("ToastPointer:empty", Value::ToastPointer(bytes(vec![]))),
+            ("ToastPointer:17", Value::ToastPointer(bytes({
                 let mut p = vec![0x11u8; 17];
                 p[0] = 0xFE;
                 p
@@ -825,8 +835,13 @@ impl Check for C33 {
             rep.bound("spiller_row_set", json!(sr.len()));
             let dir = ctx.scratch.join("spill");
             let mut qid = 0u64;
+            // quick: sequences of 1..=2 rows over all 26 rows, of 3 rows over the first 9 (empty row,
+            // Null, Int 0/MIN, Float 1.5/0.0/NaN, Text empty/multibyte) + the 70 KB text; thorough: all
+            let sub: Vec<usize> = (0..9).chain([sr.len() - 2]).collect();
+            rep.bound("spiller_len3_row_subset_quick", json!(sub.len()));
             for len in 1..=3usize {
-                for code in 0..sr.len().pow(len as u32) {
+                let pick: Vec<usize> = if len == 3 && ctx.quick() { sub.clone() } else { (0..sr.len()).collect() };
+                for code in 0..pick.len().pow(len as u32) {
                     idx += 1;
                     if !ctx.mine(idx) {
                         continue;
@@ -834,8 +849,8 @@ impl Check for C33 {
                     let mut x = code;
                     let mut ids = vec![0usize; len];
                     for p in (0..len).rev() {
-                        ids[p] = x % sr.len();
-                        x /= sr.len();
+                        ids[p] = pick[x % pick.len()];
+                        x /= pick.len();
                     }
                     let rows: Vec<&Vec<&'static V>> = ids.iter().map(|i| &sr[*i]).collect();
                     for mode in 0..3u8 {
@@ -1043,6 +1058,13 @@ impl Check for C33 {
 }
 
 fn main() {
+    // harness-side allocator tuning only: keep 70 KB payload buffers on the heap and never trim it
+    // (page faults dominate the run time in the sandbox VM otherwise)
+    unsafe {
+        libc::mallopt(libc::M_MMAP_THRESHOLD, 32 << 20);
+        libc::mallopt(libc::M_TRIM_THRESHOLD, 1 << 30);
+        libc::mallopt(libc::M_TOP_PAD, 64 << 20);
+    }
     let _ = domain();
     vcore::main(&C33)
 }
